@@ -395,8 +395,8 @@ def C08(chk):
                 chk.violation("enforce output violates C08: %s" % json.dumps(m, sort_keys=True)[:500], {"layer": "sweep", "case": m})
     if summary is None:
         tool_error("c08sweep gave no summary")
-    if summary["problems"] > 3000:
-        chk.violation("c08sweep: more than 3000 problems", {"layer": "sweep", "summary": summary})
+    if summary["problems"] >= 500000:
+        chk.violation("c08sweep: problem list overflowed", {"layer": "sweep", "summary": summary})
     chk.add_part("sweep", dict(summary, known=n_kf, wall_s=round(t, 1)))
     chk.cov["evaluations"] += summary["enforce_calls"]
     chk.cov["distinct_nontrivial"] += summary["changed"]
